@@ -283,7 +283,6 @@ type srvSim struct {
 	wireHash  uint64
 	wirePkts  int
 	wireBytes int
-	faultsAt  time.Duration // time of the last injected fault (0: none)
 	topAt     map[uint32]time.Duration
 }
 
@@ -784,7 +783,6 @@ func (s *srvSim) killOne() {
 	sort.Slice(live, func(i, j int) bool { return live[i].id.less(live[j].id) })
 	l := live[s.r.tape.Choose(len(live))]
 	l.reset()
-	s.faultsAt = s.now()
 	s.r.out.Faults["conn_killed"]++
 	s.r.log.Addf("t=%dms connection %s reset", s.ms(), l.id)
 }
@@ -923,7 +921,6 @@ func (r *run) runSrv() {
 		rs := rs
 		ns.at(time.Duration(rs.FromMS)*time.Millisecond, func() {
 			if rs.Node < len(s.nodes) && s.nodes[rs.Node].kind != srvValidator && s.nodes[rs.Node].up {
-				s.faultsAt = s.now()
 				s.restartNode(s.nodes[rs.Node])
 			}
 		})
@@ -935,7 +932,6 @@ func (r *run) runSrv() {
 		for _, x := range sp.Spans {
 			x := x
 			ns.at(time.Duration(x.FromMS)*time.Millisecond, func() {
-				s.faultsAt = time.Duration(x.ToMS) * time.Millisecond
 				r.out.Faults["silence_span"]++
 				r.log.Addf("t=%dms node %d silent until %dms", s.ms(), x.Node, x.ToMS)
 			})
@@ -943,7 +939,6 @@ func (r *run) runSrv() {
 		for _, x := range sp.Parts {
 			x := x
 			ns.at(time.Duration(x.FromMS)*time.Millisecond, func() {
-				s.faultsAt = time.Duration(x.ToMS) * time.Millisecond
 				r.out.Faults["partition"]++
 				r.log.Addf("t=%dms partition %b until %dms", s.ms(), x.Mask, x.ToMS)
 			})
@@ -1040,7 +1035,6 @@ func (s *srvSim) join(idx int, j SrvJoiner) {
 			if v.kind == srvJoinState && !v.jumped && v.mod != nil && v.mod.IsInitialized() && v.mod.IsActive() {
 				r.out.Probes["joiner_restart_in_the_middle_of_state_sync"]++
 			}
-			s.faultsAt = s.now()
 			s.restartNode(v)
 		})
 	}
